@@ -39,11 +39,11 @@ def inside(r, x, y):
 
 class Gen(object):
     def __init__(self, rng, style=None, rel=True, inch=True, arcs_=True, at=True, ext=True, addregions=True,
-                 g92e=True, zmoves=True, g90e=None, scripts=True, junk=False, layers=None, g92xyz=False, rel_e=False, wipe=True, origin=True):
+                 g92e=True, zmoves=True, g90e=None, scripts=True, junk=False, layers=None, g92xyz=False, rel_e=False, wipe=True, origin=True, spell=True, home=True):
         self.rng = rng
         self.style = style if style is not None else rng.choice(['eonly', 'eonly', 'firmware', 'none'])
         self.o = dict(rel=rel, inch=inch, arcs=arcs_, at=at, ext=ext, addregions=addregions, g92e=g92e,
-                      zmoves=zmoves, scripts=scripts, junk=junk, g92xyz=g92xyz, rel_e=rel_e, wipe=wipe, origin=origin)
+                      zmoves=zmoves, scripts=scripts, junk=junk, g92xyz=g92xyz, rel_e=rel_e, wipe=wipe, origin=origin, spell=spell, home=home)
         self.g90e = rng.random() < 0.5 if g90e is None else g90e
         self.layers = layers or rng.randint(1, 3)
 
@@ -82,7 +82,30 @@ class Gen(object):
             w = parts[1:]
             rng.shuffle(w)
             parts = [g] + w
+        if self.o.get('spell', True) and rng.random() < 0.2:
+            parts = [g] + [self.respell(w) for w in parts[1:]]
+            if rng.random() < 0.25:
+                self.emit(''.join(parts))       # "G1X5Y5": no blanks at all
+                return
         self.emit(' '.join(parts))
+
+    def respell(self, w):
+        """another legal RS274 spelling of one letter/number word: no leading zero, explicit plus, lower-case letter, blank
+        after the letter, trailing point"""
+        rng = self.rng
+        l, t = w[0], w[1:]
+        k = rng.random()
+        if (t.startswith('0.') or t.startswith('-0.')) and len(t) > 2 + t.startswith('-') and rng.random() < 0.6:
+            t = t.replace('0.', '.', 1)
+        elif k < 0.45 and t and t[0].isdigit():
+            t = '+' + t
+        elif k < 0.6:
+            l = l.lower()
+        elif k < 0.7:
+            t = ' ' + t
+        elif k < 0.8 and '.' not in t and t and t[-1].isdigit():
+            t = t + '.'
+        return l + t
 
     # ------------------------------------------------------------------ building blocks
     def retract(self):
@@ -128,7 +151,12 @@ class Gen(object):
             self.events.append(('add', None))     # placeholder, placed later
         elif r < 0.30 and o['junk']:
             self.emit(rng.choice(['G1', 'G1 F1200', 'G0 X', 'G1 X Y', 'G92', 'G28 X', 'G1 E', 'M206 X1', 'G10 P1 S200', 'G10 L2 X0']))
-        elif r < 0.31 and o['g92xyz'] and not self.retracted:
+        elif r < 0.315 and o.get('home', True) and not self.retracted:
+            # homing in mid-print (after a unit / mode switch it must keep units and modes); the tool must not be inside a region
+            self.home_points.append((self.U.x, self.U.y))
+            self.emit(rng.choice(['G28', 'G28 X Y', 'G28 X', 'G28 Y', 'G28 X0 Y0', 'G28 Z']))
+            self.home_points.append((self.U.x, self.U.y))
+        elif r < 0.325 and o['g92xyz'] and not self.retracted:
             self.emit('G92 X%s Y%s' % (fmt(F(rng.randint(0, 50))), fmt(F(rng.randint(0, 50)))))
 
     def extrude_to(self, x, y, z=None):
@@ -174,7 +202,9 @@ class Gen(object):
             # slicer wipe: the retraction is carried by a move
             self.move(x=self.U.x + F(rng.randint(-2000, 2000), 1000), y=self.U.y + F(rng.randint(-2000, 2000), 1000), e=self.U.e - self.alen)
             self.retracted = True
-        self.retract()
+        carry = self.o['wipe'] and self.style == 'eonly' and not self.retracted and rng.random() < 0.12
+        if not carry:
+            self.retract()
         if self.o['origin'] and rng.random() < 0.12:
             # park / wipe at the bed origin: coordinates that are exactly 0
             k = rng.random()
@@ -187,7 +217,12 @@ class Gen(object):
         hop = self.o['zmoves'] and rng.random() < 0.3
         if hop:
             self.move(z=z + F(4, 10), f=3000)
-        self.move(x=pts[0][0], y=pts[0][1], f=rng.choice([6000, 7200, None]), g=rng.choice(['G0', 'G1']))
+        if carry and not self.retracted:
+            # "retract while travelling": the travel into the next island carries the retraction
+            self.move(x=pts[0][0], y=pts[0][1], e=self.U.e - self.alen, f=rng.choice([6000, None]))
+            self.retracted = True
+        else:
+            self.move(x=pts[0][0], y=pts[0][1], f=rng.choice([6000, 7200, None]), g=rng.choice(['G0', 'G1']))
         if hop:
             self.move(z=z)
         self.recover()
@@ -217,6 +252,7 @@ class Gen(object):
         self.retracted = False
         self.alen = F(rng.choice(['0.8', '1', '2.5', '4.5', '0.04']))
         self.extra_ext_cmds = []
+        self.home_points = []
         ext = dict(DEFAULT_EXT)
         if self.o['ext'] and rng.random() < 0.6:
             for code in rng.sample(['M204', 'M205', 'M117', 'M73', 'G4', 'M106', 'M900', 'M220'], rng.randint(1, 5)):
@@ -251,7 +287,8 @@ class Gen(object):
         for _ in range(rng.randint(0, 2)):
             cands.append(self.rand_region(F(rng.randint(10, 190)), F(rng.randint(10, 190))))
         pts = self.tested_points(events)
-        regions = [r for r in cands if all(abs(region_dist(r, x, y)) >= float(MARGIN) * 5 for (x, y) in pts)]
+        regions = [r for r in cands if all(abs(region_dist(r, x, y)) >= float(MARGIN) * 5 for (x, y) in pts)
+                   and not any(inside(r, x, y) for (x, y) in self.home_points)]
         for k, r in enumerate(regions):
             regions[k] = (r[0], 'r%d' % k) + r[2:]
         # distribute: some initial, some added mid-print
